@@ -83,8 +83,13 @@ type history struct {
 	Leaders  []leaderObs    `json:"leaders"`
 	SnapObs  int            `json:"snapshots_observed"`
 	LogStats map[string]int `json:"log_stats,omitempty"`
-	Final    *finalState    `json:"final"`
-	Verdict  []string       `json:"verdict,omitempty"`
+	// Checkpoints that took longer than the 20 ms after which the engine wrapper reports
+	// them frozen and that some replica restored afterwards (term-index names), and the log
+	// lines that show it; see known_test.go.
+	SlowRestoredCheckpoints []string    `json:"slow_restored_checkpoints,omitempty"`
+	CheckpointLog           []string    `json:"checkpoint_log,omitempty"`
+	Final                   *finalState `json:"final"`
+	Verdict                 []string    `json:"verdict,omitempty"`
 }
 
 // ---------------------------------------------------------------- canonical final values
@@ -394,6 +399,7 @@ func localNegative(o *opRec) bool {
 type verdict struct {
 	Violations   []string
 	Inconclusive []string
+	Notes        []string
 	Counts       map[string]int
 }
 
@@ -403,7 +409,48 @@ func (v *verdict) violate(format string, a ...interface{}) {
 
 // checkHistory is deterministic in the history (porcupine's timeout aside, which can
 // only turn a verdict into "inconclusive").
+//
+// A write that was answered with one of the errors that are returned before anything is
+// proposed (outcome "fail" with an error reply) cannot have taken effect, and the first
+// pass holds the history to that: such writes are left out, which also keeps the search
+// small. The property itself only says that a write that got an error takes effect at
+// most once. So a history that fails the first pass is examined again with those writes
+// as operations of unknown outcome, and only what still fails then is a violation; if the
+// second pass is clean, an error-answered write visibly took effect, which is noted
+// (counter rejected_write_took_effect) but is not what C04 forbids.
 func checkHistory(h *history, linTimeout time.Duration) *verdict {
+	v := checkHistoryPass(h, linTimeout)
+	if len(v.Violations) == 0 {
+		return v
+	}
+	rejected := 0
+	h2 := *h
+	h2.Ops = append([]opRec{}, h.Ops...)
+	for i := range h2.Ops {
+		o := &h2.Ops[i]
+		if o.Kind != "read" && o.Outcome == "fail" && o.Reply != nil {
+			o.Outcome = "unknown"
+			rejected++
+		}
+	}
+	if rejected == 0 {
+		return v
+	}
+	v2 := checkHistoryPass(&h2, linTimeout)
+	v2.Counts["second_pass_with_rejected_as_unknown"] = 1
+	if len(v2.Violations) == 0 && len(v2.Inconclusive) == 0 {
+		v2.Counts["rejected_write_took_effect"] = 1
+		v2.Notes = append(v2.Notes, "a write answered with a pre-propose error took effect; first-pass findings: "+strings.Join(v.Violations, " | "))
+	}
+	for k, n := range v.Counts {
+		if _, ok := v2.Counts[k]; !ok {
+			v2.Counts[k] = n
+		}
+	}
+	return v2
+}
+
+func checkHistoryPass(h *history, linTimeout time.Duration) *verdict {
 	v := &verdict{Counts: map[string]int{}}
 	if h.Final == nil || len(h.Final.Dumps) == 0 {
 		v.Inconclusive = append(v.Inconclusive, "no final state recorded")
@@ -462,20 +509,73 @@ func checkHistory(h *history, linTimeout time.Duration) *verdict {
 	}
 	tf++
 	for _, k := range h.Keys {
-		ops := buildPorcupine(k, byKey[k.Name], ref[k.Name], tf)
+		// Optimistic pass first: leave out every operation of unknown outcome whose effect
+		// nothing attests (its token is in no reply and not in the final value). If what
+		// remains linearizes, so does the whole history - the operations left out go after
+		// the final read, which their open-ended interval allows. Only if this pass fails
+		// is the full search (exponential in the worst case) needed.
+		obs := observedTokens(byKey[k.Name], ref[k.Name])
+		opt := buildPorcupineOpts(k, byKey[k.Name], ref[k.Name], tf, -1, obs)
 		t0 := time.Now()
-		res, _ := porcupine.CheckOperationsVerbose(c04Model, ops, linTimeout)
+		res := porcupine.CheckOperationsTimeout(c04Model, opt, linTimeout)
+		if res != porcupine.Ok {
+			v.Counts["full_search_needed"]++
+			ops := buildPorcupine(k, byKey[k.Name], ref[k.Name], tf)
+			res = porcupine.CheckOperationsTimeout(c04Model, ops, linTimeout)
+			opt = ops
+		}
 		v.Counts["porcupine_ms"] += int(time.Since(t0).Milliseconds())
 		switch res {
 		case porcupine.Ok:
 		case porcupine.Unknown:
-			v.Inconclusive = append(v.Inconclusive, fmt.Sprintf("porcupine timed out on key %s (%d operations)", k.Name, len(ops)))
+			v.Inconclusive = append(v.Inconclusive, fmt.Sprintf("porcupine timed out on key %s (%d operations)", k.Name, len(opt)))
 		case porcupine.Illegal:
 			v.violate("history of key %s (%s, %d operations incl. final value %v) is not linearizable; %s",
-				k.Name, k.Type, len(ops), abbrev(ref[k.Name]), culprit(k, byKey[k.Name], ref[k.Name], tf, linTimeout))
+				k.Name, k.Type, len(opt), abbrev(ref[k.Name]), culprit(k, byKey[k.Name], ref[k.Name], tf, linTimeout))
 		}
 	}
 	return v
+}
+
+// observedTokens: every unique argument that shows up in a reply (reads included: a stale
+// read returns an old value, never a future one) or in the final value.
+func observedTokens(ops []*opRec, final []string) map[string]bool {
+	obs := map[string]bool{}
+	add := func(s string) {
+		obs[s] = true
+		parts := []string{s}
+		if i := strings.IndexByte(s, '='); i >= 0 { // hash field=value in the final value
+			parts = append(parts, s[i+1:])
+			obs[s[i+1:]] = true
+		}
+		for _, p := range parts {
+			toks, _ := tokens(p)
+			for _, t := range toks {
+				obs[t] = true
+			}
+		}
+	}
+	var walk func(v *rv)
+	walk = func(v *rv) {
+		if v == nil {
+			return
+		}
+		if v.T == "b" {
+			add(v.S)
+		}
+		for i := range v.A {
+			walk(&v.A[i])
+		}
+	}
+	for _, o := range ops {
+		if o.Outcome == "ok" {
+			walk(o.Reply)
+		}
+	}
+	for _, f := range final {
+		add(f)
+	}
+	return obs
 }
 
 func abbrev(s []string) string {
@@ -493,6 +593,12 @@ func buildPorcupine(k keySpec, ops []*opRec, final []string, tf int64) []porcupi
 // the final value): operations that returned by then are complete, operations invoked by
 // then are pending (open-ended, reply unconstrained).
 func buildPorcupineUpTo(k keySpec, ops []*opRec, final []string, tf int64, cut int64) []porcupine.Operation {
+	return buildPorcupineOpts(k, ops, final, tf, cut, nil)
+}
+
+// With observed != nil (optimistic pass) operations of unknown outcome that carry a unique
+// argument which was never observed are left out.
+func buildPorcupineOpts(k keySpec, ops []*opRec, final []string, tf int64, cut int64, observed map[string]bool) []porcupine.Operation {
 	inf := tf + 2
 	var res map[*opRec]resolved
 	if cut < 0 {
@@ -509,6 +615,9 @@ func buildPorcupineUpTo(k keySpec, ops []*opRec, final []string, tf int64, cut i
 		in := mIn{Type: k.Type, Kind: o.Kind, Field: o.Field, Arg: o.Arg, Delta: o.Delta}
 		if o.Outcome == "ok" && (cut < 0 || o.Return <= cut) {
 			out = append(out, porcupine.Operation{ClientId: o.Client, Input: in, Call: o.Invoke, Output: mOut{V: *o.Reply}, Return: o.Return})
+			continue
+		}
+		if observed != nil && o.Arg != "" && !observed[o.Arg] {
 			continue
 		}
 		op := porcupine.Operation{ClientId: o.Client, Input: in, Call: o.Invoke, Output: mOut{Unknown: true}, Return: inf}
@@ -604,6 +713,9 @@ func resolveUnknown(k keySpec, ops []*opRec, final []string, tf int64) map[*opRe
 				res[o] = resolved{drop: true} // not executed, or executed as a no-op on a field already set
 			}
 		}
+		resolveCounters(k, ops, final, tf, res)
+	case ktCnt, ktZset:
+		resolveCounters(k, ops, final, tf, res)
 	case ktList, ktSet:
 		seen := map[string]int64{}
 		for _, e := range final {
@@ -955,6 +1067,111 @@ func checkSessions(v *verdict, k keySpec, ops []*opRec) {
 			case y != w && y.Outcome == "ok" && y.Return < w.Invoke:
 				v.violate("key %s: op #%d (client %d, node %d) %s %s was acknowledged at %dns, but read #%d on the same connection, invoked at %dns, still returned %q of op #%d, which had completed at %dns before op #%d was invoked at %dns: the acknowledged write had not taken effect when it was acknowledged",
 					k.Name, w.ID, w.Client, w.Node, w.Kind, w.Arg, w.Return, o.ID, o.Invoke, o.Reply.S, y.ID, y.Return, w.ID, w.Invoke)
+			}
+		}
+	}
+}
+
+// resolveCounters: the final value of a counter minus the acknowledged increments is the
+// sum of the increments of unknown outcome that took effect. Increments are powers of
+// two, so that sum usually has exactly one decomposition over the distinct amounts; where
+// it says "none of the increments by d" those are left out, where it says "all of them"
+// they are known to precede the final read.
+func resolveCounters(k keySpec, ops []*opRec, final []string, tf int64, res map[*opRec]resolved) {
+	fin := map[string]int64{}
+	switch k.Type {
+	case ktCnt:
+		if len(final) == 1 {
+			n, err := strconv.ParseInt(final[0], 10, 64)
+			if err != nil {
+				return
+			}
+			fin[""] = n
+		}
+	default:
+		for _, fv := range final {
+			i := strings.IndexByte(fv, '=')
+			x, err := strconv.ParseFloat(fv[i+1:], 64)
+			if err != nil || x != float64(int64(x)) {
+				continue // not a counter field
+			}
+			fin[fv[:i]] = int64(x)
+		}
+	}
+	okSum := map[string]int64{}
+	unk := map[string]map[int64][]*opRec{}
+	for _, o := range ops {
+		d := o.Delta
+		switch o.Kind {
+		case "incr":
+			d = 1
+		case "incrby", "hincrby", "zincrby":
+		default:
+			continue
+		}
+		switch o.Outcome {
+		case "ok":
+			okSum[o.Field] += d
+		case "unknown":
+			if unk[o.Field] == nil {
+				unk[o.Field] = map[int64][]*opRec{}
+			}
+			unk[o.Field][d] = append(unk[o.Field][d], o)
+		}
+	}
+	for f, groups := range unk {
+		rest := fin[f] - okSum[f]
+		if rest < 0 {
+			continue
+		}
+		var vals []int64
+		for d := range groups {
+			vals = append(vals, d)
+		}
+		sort.Slice(vals, func(i, j int) bool { return vals[i] > vals[j] })
+		cnts := make([]int, len(vals))
+		suffix := make([]int64, len(vals)+1)
+		for i := len(vals) - 1; i >= 0; i-- {
+			cnts[i] = len(groups[vals[i]])
+			suffix[i] = suffix[i+1] + vals[i]*int64(cnts[i])
+		}
+		var sol, cur []int
+		cur = make([]int, len(vals))
+		nsol, budget := 0, 200000
+		var dfs func(i int, rest int64)
+		dfs = func(i int, rest int64) {
+			if nsol > 1 || budget <= 0 {
+				return
+			}
+			budget--
+			if i == len(vals) {
+				if rest == 0 {
+					nsol++
+					sol = append([]int{}, cur...)
+				}
+				return
+			}
+			if rest > suffix[i] {
+				return
+			}
+			for n := 0; n <= cnts[i] && int64(n)*vals[i] <= rest; n++ {
+				cur[i] = n
+				dfs(i+1, rest-int64(n)*vals[i])
+			}
+			cur[i] = 0
+		}
+		dfs(0, rest)
+		if nsol != 1 || budget <= 0 {
+			continue
+		}
+		for i, d := range vals {
+			for _, o := range groups[d] {
+				switch sol[i] {
+				case 0:
+					res[o] = resolved{drop: true}
+				case cnts[i]:
+					res[o] = resolved{before: tf + 1}
+				}
 			}
 		}
 	}
